@@ -214,7 +214,11 @@ func (cc *Session) handleHandshakeResponse(info HandshakeResponseInfo) error {
 	} else if info.AuthPlugin == mysql.CachingSHA2Password {
 		succ, password = cc.manager.CheckSha2Password(user, info.Salt, info.AuthResponse)
 	} else {
-		succ, password = cc.manager.CheckPassword(user, info.Salt, info.AuthResponse)
+		// mysql_native_password after an auth switch: the password may be stored hashed here as well
+		succ, password = cc.manager.CheckHashPassword(user, info.Salt, info.AuthResponse)
+		if !succ {
+			succ, password = cc.manager.CheckPassword(user, info.Salt, info.AuthResponse)
+		}
 	}
 
 	if !succ {
